@@ -122,11 +122,25 @@ def _touch(g, names):
             pass
 
 
+class _SysStub:
+    """`sys` as seen by loaded code: sys.modules is the universe registry (elements.pyx looks itself up there)"""
+    def __init__(self, uni):
+        self._uni = uni
+
+    @property
+    def modules(self):
+        return self._uni.modules
+
+    def __getattr__(self, a):
+        return getattr(sys, a)
+
+
 class Universe:
     def __init__(self, stubs=None, root=ROOT, real_modules=()):
         """stubs: {'Name': obj} or {('module', 'Name'): obj}; real_modules: module-name prefixes to import for real"""
         self.root = root
         self.stubs = dict(stubs or {})
+        self.stubs.setdefault('sys', _SysStub(self))
         self.modules = {}
         self.sources = {}
         self.loading = set()
